@@ -263,6 +263,7 @@ pub fn alphabet(n: usize, c: &AlphaCfg) -> Vec<Dev> {
         }
     }
     devs.extend(crate::devs::context_devs());
+    devs.extend(crate::devs::rebound_prelude_devs());
     if c.kinds {
         devs.extend(crate::devs::rare_shape_devs(n, false));
     }
